@@ -29,7 +29,11 @@ import time
 
 VERIF = os.path.dirname(os.path.dirname(os.path.abspath(__file__)))
 REPO = os.environ.get("VERIF_REPO", "/repo")
-SCRATCH = os.environ.get("VERIF_SCRATCH", "/var/tmp/zydeco-verif")
+# one scratch root per checkout of this framework (a `vp run` snapshot must not share workspaces
+# with /verif itself)
+SCRATCH = os.environ.get("VERIF_SCRATCH") or (
+    "/var/tmp/zydeco-verif" if VERIF == "/verif"
+    else "/var/tmp/zydeco-verif-" + hashlib.sha1(VERIF.encode()).hexdigest()[:8])
 CACHE = os.path.join(VERIF, ".cache")
 HARNESS_DIR = os.path.join(VERIF, "harness")
 sys.path.insert(0, os.path.join(VERIF, "tools"))
@@ -355,9 +359,19 @@ def match_known(prop, h, info, decoded):
 
 
 def run_property(prop, tier, only, keep_ws, jobs, seed):
-    t0 = time.time()
     if prop not in plan.PROPERTIES:
         raise SystemExit(f"{prop}: not a claimed property (see MANIFEST.json not_applicable)")
+    # two runs of the same property share one scratch workspace and one cargo target dir:
+    # serialise them
+    import fcntl
+    os.makedirs(SCRATCH, exist_ok=True)
+    with open(os.path.join(SCRATCH, prop + ".lock"), "w") as lock:
+        fcntl.flock(lock, fcntl.LOCK_EX)
+        return _run_property(prop, tier, only, keep_ws, jobs, seed)
+
+
+def _run_property(prop, tier, only, keep_ws, jobs, seed):
+    t0 = time.time()
     pmeta = plan.PROPERTIES[prop]
     evidence = {
         "property_id": prop, "tier": tier, "seed": seed, "level": pmeta["level"],
